@@ -335,10 +335,10 @@ def main():
     for key in sorted(unmatched):
         items = sorted(unmatched[key], key=lambda x: x[:2])
         size, i, f = items[0]; t = by_i[i]
-        data, evals = shrink(t, key, budget_s=60 if thorough else 30)
+        data, n_ev = shrink(t, key, budget_s=60 if thorough else 30)
         fid = match_finding(t, f)
         run.violation(f"{t['fmt']} input ({t['kind']}, reader config {R.READER_CFGS[t['fmt']][t['cfg']]}): stage {f['stage']} raised {f['type']} at {f['site']}: {f['msg']!r}; "
-                      f"minimised input ({len(data)} bytes, {evals} evaluations): {show(data, 300)!r}; {len(items)} inputs of this run fail this way"
+                      f"minimised input ({len(data)} bytes, {n_ev} evaluations): {show(data, 300)!r}; {len(items)} inputs of this run fail this way"
                       + (f"; trigger of finding {fid} matches but the finding is not listed" if fid else ""),
                       replay_dict(t, data, f))
 
